@@ -87,14 +87,15 @@ pub fn gen_group_cmd(r: &mut Rng, st: &mut GenSt) -> Vec<Vec<u8>> {
             cmd
         }
         30..=32 => vec![v(b"XPENDING"), v(k), v(g)],
-        33..=35 => { // extended XPENDING; start <= end unless a consumer is named (inverted ranges
-                     // without a consumer panic: finding xpending-inverted-range)
+        33..=35 => { // extended XPENDING; mostly start <= end, sometimes inverted (former crash class
+                     // xpending-inverted-range, fixed by 8b811fd)
             let (a, b) = (1 + r.below(st.next_ms + 2), 1 + r.below(st.next_ms + 2));
             let (lo, hi) = (a.min(b), a.max(b));
             let start = if r.chance(1, 2) { v(b"-") } else { format!("{}-0", lo).into_bytes() };
             let end = if r.chance(1, 2) { v(b"+") } else { format!("{}-5", hi).into_bytes() };
             let mut cmd = vec![v(b"XPENDING"), v(k), v(g), start, end, v(*r.pick(&[&b"10"[..], b"1", b"2", b"0", b"abc", b"18446744073709551615"]))];
-            if r.chance(1, 3) { cmd.push(v(c)); if r.chance(1, 3) { cmd[3] = v(b"9-0"); cmd[4] = v(b"2-0"); } }
+            if r.chance(1, 3) { cmd.push(v(c)); }
+            if r.chance(1, 5) { cmd[3] = v(*r.pick(&[&b"9-0"[..], b"7-0", b"18446744073709551615-0"])); cmd[4] = v(*r.pick(&[&b"2-0"[..], b"5-0", b"0-0"])); }
             if r.chance(1, 20) { cmd[3] = v(b"junk"); }
             if r.chance(1, 30) { cmd.truncate(5); }
             cmd
@@ -168,7 +169,7 @@ struct RefGroup {
 }
 impl RefGroup {
     fn class(&self) -> &'static str {
-        if self.reread { "class=explicit-id-reread " } else if self.setid { "class=setid-redelivery " } else if self.noack { "class=noack-no-advance " } else { "" }
+        if self.reread { "class=explicit-id-reread " } else if self.setid { "class=setid-redelivery " } else { "" }
     }
 }
 #[derive(Default, Clone)]
@@ -186,7 +187,9 @@ pub fn judge(c: &Case, outs: &[Vec<Tok>]) -> Vec<String> {
         let rep = match V::dec(out, &mut p2) { Some(r) => r, None => continue };
         let a = match bulks(&req) { Some(a) if !a.is_empty() => a, _ => {
             // a non-bulk argument: the reference cannot follow what the command did
-            if !matches!(rep, V::Error(_)) { for e in db.values_mut() { e.known = false; for g in e.groups.values_mut() { g.uncertain = true; } } }
+            // (a multi-key XREADGROUP may have served earlier keys before failing: class xreadgroup-partial-failure)
+            let is_rg = matches!(&req, V::Array(l) if matches!(l.first(), Some(V::Bulk(b)) if b.eq_ignore_ascii_case(b"XREADGROUP")));
+            if is_rg || !matches!(rep, V::Error(_)) { for e in db.values_mut() { e.known = false; for g in e.groups.values_mut() { g.uncertain = true; } } }
             continue } };
         let name = a[0].to_ascii_uppercase();
         let up = |x: &Vec<u8>| x.to_ascii_uppercase();
@@ -209,7 +212,15 @@ pub fn judge(c: &Case, outs: &[Vec<Tok>]) -> Vec<String> {
                         }
                     }
                     b"DESTROY" => { if let (V::Int(1), Some(e)) = (&rep, db.get_mut(&a[2])) { e.groups.remove(&a[3]); } }
-                    b"SETID" if a.len() >= 5 => { if let (V::Simple(_), Some(g)) = (&rep, db.get_mut(&a[2]).and_then(|e| e.groups.get_mut(&a[3]))) { g.setid = true; } }
+                    b"SETID" if a.len() >= 5 => {
+                        // the cursor moves to the given position: entries above it may (again) be delivered
+                        let top = db.get(&a[2]).and_then(|e| e.ids.iter().next_back().cloned()).unwrap_or((0, 0));
+                        if let (V::Simple(_), Some(g)) = (&rep, db.get_mut(&a[2]).and_then(|e| e.groups.get_mut(&a[3]))) {
+                            g.setid = true;
+                            let ns = if a[4] == b"$" { top } else { pid(&a[4]).unwrap_or((0, 0)) };
+                            g.start = ns; g.delivered.retain(|i| *i <= ns);
+                        }
+                    }
                     b"CREATECONSUMER" if a.len() == 5 => { if let (V::Int(n), Some(g)) = (&rep, db.get_mut(&a[2]).and_then(|e| e.groups.get_mut(&a[3]))) {
                         let fresh = g.consumers.insert(a[4].clone());
                         if !g.uncertain && (*n == 1) != fresh { fail(format!("{}CREATECONSUMER answered {} for a {} consumer", g.class(), n, if fresh { "new" } else { "known" })); } } }
@@ -240,13 +251,13 @@ pub fn judge(c: &Case, outs: &[Vec<Tok>]) -> Vec<String> {
                         let idarg = match (0..nk).find(|j| rest[*j] == key) { Some(j) => rest[nk + j].clone(), None => continue };
                         let ids: Vec<Id> = entries.iter().filter_map(|e| match e { V::Array(p) if p.len() == 2 => match &p[0] { V::Bulk(b) => pid(b), _ => None }, _ => None }).collect();
                         let g = match db.get_mut(&key).and_then(|e| e.groups.get_mut(&gn)) { Some(g) => g, None => continue };
-                        g.consumers.insert(cn.clone());
+                        if !noack { g.consumers.insert(cn.clone()); }   // add_pending registers the reader
                         if idarg == b">" {
                             let mut prev: Option<Id> = None;
                             for i in &ids {
                                 if prev.map_or(false, |p| *i <= p) { fail(format!("{}> delivered IDs out of order", g.class())); }
                                 prev = Some(*i);
-                                if g.delivered.contains(i) { fail(format!("{}entry {:?} delivered a second time through >", g.class(), i)); }
+                                if g.delivered.contains(i) { fail(format!("{}entry {:?} delivered a second time through >", if g.class().is_empty() && g.noack { "class=noack-no-advance " } else { g.class() }, i)); }
                                 else if *i <= g.start && !g.uncertain { fail(format!("class=group-start-ignored entry {:?} at or before the group's start position {:?} delivered", i, g.start)); }
                                 g.delivered.insert(*i);
                                 if !noack { g.pending.insert(*i, cn.clone()); }
